@@ -25,8 +25,7 @@ type Solver struct {
 	errors  int
 	lastErr string
 	// transcript of everything sent since the last reset (for cross-checking)
-	transcript strings.Builder
-	keepTranscript bool
+	ctx []string
 }
 
 func newSolver(bin string, timeoutMs int, logPath string) *Solver {
@@ -60,29 +59,30 @@ func (s *Solver) start() {
 
 func (s *Solver) prelude() {
 	if strings.Contains(s.bin, "cvc5") {
-		s.send("(set-logic ALL)")
+		s.raw("(set-logic ALL)")
 		return
 	}
-	s.send(fmt.Sprintf("(set-option :timeout %d)", s.timeout))
+	s.raw(fmt.Sprintf("(set-option :timeout %d)", s.timeout))
 }
 
+// send: context lines (declarations, definitions, path-condition assertions) are only recorded;
+// every check-sat is a one-shot query "(reset) + context + extra" so that z3 applies its
+// non-incremental tactics (bit-blasting for BV/FP), which are several times faster here.
 func (s *Solver) send(line string) {
+	s.ctx = append(s.ctx, line)
+}
+
+func (s *Solver) raw(line string) {
 	s.in.WriteString(line)
 	s.in.WriteByte('\n')
 	if s.log != nil {
 		s.log.WriteString(line)
 		s.log.WriteString("\n")
 	}
-	if s.keepTranscript {
-		s.transcript.WriteString(line)
-		s.transcript.WriteByte('\n')
-	}
 }
 
 func (s *Solver) reset() {
-	s.send("(reset)")
-	s.transcript.Reset()
-	s.prelude()
+	s.ctx = s.ctx[:0]
 }
 
 func (s *Solver) readLine() string {
@@ -143,11 +143,15 @@ func (r satResult) String() string { return [...]string{"unsat", "sat", "unknown
 // check: (push)(assert extra)(check-sat) ... caller must call popQuery after reading the model.
 func (s *Solver) checkPushed(extra []*Term) satResult {
 	t0 := time.Now()
-	s.send("(push 1)")
-	for _, x := range extra {
-		s.send("(assert " + x.s + ")")
+	s.raw("(reset)")
+	s.prelude()
+	for _, l := range s.ctx {
+		s.raw(l)
 	}
-	s.send("(check-sat)")
+	for _, x := range extra {
+		s.raw("(assert " + x.s + ")")
+	}
+	s.raw("(check-sat)")
 	s.in.Flush()
 	s.queries++
 	var res satResult
@@ -176,7 +180,7 @@ func (s *Solver) checkPushed(extra []*Term) satResult {
 	return res
 }
 
-func (s *Solver) pop() { s.send("(pop 1)") }
+func (s *Solver) pop() {}
 
 // getValues returns name->raw value text for the given constant names (must be in sat state)
 func (s *Solver) getValues(names []string) map[string]string {
@@ -187,7 +191,7 @@ func (s *Solver) getValues(names []string) map[string]string {
 		if j > len(names) {
 			j = len(names)
 		}
-		s.send("(get-value (" + strings.Join(names[i:j], " ") + "))")
+		s.raw("(get-value (" + strings.Join(names[i:j], " ") + "))")
 		s.in.Flush()
 		txt := s.readSexp()
 		if strings.HasPrefix(strings.TrimSpace(txt), "(error") {
@@ -278,7 +282,7 @@ func tokenize(s string) []string {
 
 func (s *Solver) close() {
 	if s.cmd != nil && s.cmd.Process != nil {
-		s.send("(exit)")
+		s.raw("(exit)")
 		s.in.Flush()
 		done := make(chan struct{})
 		go func() { s.cmd.Wait(); close(done) }()
